@@ -58,7 +58,11 @@ def main():
                                      "(harness/translate) and/or executed inside Coq (vm_compute, interval) against the implementation on every run")],
         checks=checks,
         notes="See DESIGN.md. Every check: translate -> prove (make + Print Assumptions) -> correspond (model run inside Coq vs implementation) -> "
-              "oracle/search on the implementation -> report. VERIF_REPO overrides /repo for trying seeded changes in scratch worktrees only.",
+              "oracle/search on the implementation -> report. VERIF_REPO overrides /repo for trying seeded changes in scratch worktrees only. "
+              "No guarded hook commit exists (harnesses wrap functions in their own process). Genuine defects repaired in /repo by unguarded "
+              "`fix:` commits (27ac519 3c452cf 6d6bb6f 0ec38a3 3d244df 559c452 9eb5088 b73cab6 fe0cadd): each is recorded in "
+              "known_findings.jsonl with status fixed (`record`: 'fixed: property=<id> <commit> <what failed>'); recorded, unrepaired "
+              "defects have status known and are printed as KNOWN-FINDING (docs/FINDINGS.md).",
         not_applicable=not_applicable,
     )
     json.dump(man, open(os.path.join(ROOT, "MANIFEST.json"), "w"), indent=1)
